@@ -14,33 +14,22 @@ Check spec_op_has_defined_multiplicities : forall k all l r x,
   mult x (spec_op k all l r) = spec_mult k all (mult x l) (mult x r).
 Print Assumptions spec_op_has_defined_multiplicities.
 
-(* UNION, UNION ALL, INTERSECT, EXCEPT of set_ops.rs return the SQL-defined bag, for all operands *)
-Theorem set_ops_distinct_and_union_all_correct : forall k all l r,
-  (all = false \/ k = KUnion) -> bag_eq (impl_op k all l r) (spec_op k all l r).
+(* every set operation of set_ops.rs -- UNION, INTERSECT, EXCEPT, each with and without ALL --
+   returns the SQL-defined bag, for all operands (INTERSECT ALL / EXCEPT ALL since 432d38e) *)
+Theorem set_ops_correct : forall k all l r, bag_eq (impl_op k all l r) (spec_op k all l r).
 Proof. exact impl_op_correct. Qed.
-Check set_ops_distinct_and_union_all_correct : forall k all l r,
-  (all = false \/ k = KUnion) -> bag_eq (impl_op k all l r) (spec_op k all l r).
-Print Assumptions set_ops_distinct_and_union_all_correct.
+Check set_ops_correct : forall k all l r, bag_eq (impl_op k all l r) (spec_op k all l r).
+Print Assumptions set_ops_correct.
 
-(* INTERSECT ALL / EXCEPT ALL are right when the left operand has no duplicate row ... *)
-Theorem set_ops_all_correct_without_left_duplicates : forall k l r,
-  dup_free l -> bag_eq (impl_op k true l r) (spec_op k true l r).
-Proof. exact impl_op_all_correct_dup_free. Qed.
-Check set_ops_all_correct_without_left_duplicates : forall k l r,
-  dup_free l -> bag_eq (impl_op k true l r) (spec_op k true l r).
-Print Assumptions set_ops_all_correct_without_left_duplicates.
-
-(* ... and wrong otherwise: [1; 1] EXCEPT ALL [1] *)
-Theorem except_all_by_membership_refuted : exists l r, ~ bag_eq (impl_op KExcept true l r) (spec_op KExcept true l r).
-Proof. exact except_all_refuted. Qed.
-Check except_all_by_membership_refuted : exists l r, ~ bag_eq (impl_op KExcept true l r) (spec_op KExcept true l r).
-Print Assumptions except_all_by_membership_refuted.
-
-(* [1; 1] INTERSECT ALL [1] *)
-Theorem intersect_all_by_membership_refuted : exists l r, ~ bag_eq (impl_op KIntersect true l r) (spec_op KIntersect true l r).
-Proof. exact intersect_all_refuted. Qed.
-Check intersect_all_by_membership_refuted : exists l r, ~ bag_eq (impl_op KIntersect true l r) (spec_op KIntersect true l r).
-Print Assumptions intersect_all_by_membership_refuted.
+(* the former witnesses of the membership defect *)
+Theorem intersect_except_all_repaired :
+  impl_op KExcept true [[VInt 1]; [VInt 1]] [[VInt 1]] = [[VInt 1]] /\
+  impl_op KIntersect true [[VInt 1]; [VInt 1]] [[VInt 1]] = [[VInt 1]].
+Proof. exact all_variants_repaired. Qed.
+Check intersect_except_all_repaired :
+  impl_op KExcept true [[VInt 1]; [VInt 1]] [[VInt 1]] = [[VInt 1]] /\
+  impl_op KIntersect true [[VInt 1]; [VInt 1]] [[VInt 1]] = [[VInt 1]].
+Print Assumptions intersect_except_all_repaired.
 
 (* the executable comparison used by the correspondence run decides bag equality *)
 Theorem bag_check_decides_bag_equality : forall a b, bag_eqb a b = true <-> bag_eq a b.
@@ -54,7 +43,7 @@ Proof. exact (@same_reading_sound). Qed.
 Check same_reading_decides_the_two_parses : forall (A : Type) (c : gchain A), same_reading c = true -> parse_std c = parse_right c.
 Print Assumptions same_reading_decides_the_two_parses.
 
-(* every tree of UNION [ALL] / INTERSECT / EXCEPT over simple branches is evaluated as SQL defines *)
+(* every tree of set operations over simple branches is evaluated as SQL defines (op_counted = True: no condition on the operators) *)
 Theorem set_operation_trees_correct : forall widths db t,
   db_wf widths db = true -> tree_ok (leaf_simple widths) op_counted t ->
   match qeval db [] (qry_of_tree t) with
@@ -84,11 +73,25 @@ Check statements_outside_finding_classes_correct : forall widths db (c : chain),
   agree (impl_stmt widths db c) (qeval db [] (chain_qry c)).
 Print Assumptions statements_outside_finding_classes_correct.
 
-(* every finding class 1 .. 12 contains a statement that the faithful model answers wrongly *)
-Theorem finding_classes_refuted : forall k, In k [1; 2; 3; 4; 5; 6; 7; 8; 9; 10; 11; 12]%Z -> exists w, refutes k w = true.
+(* every open finding class 2 .. 11 contains a statement that the faithful model answers wrongly *)
+Theorem finding_classes_refuted : forall k, In k [2; 3; 4; 5; 6; 7; 8; 9; 10; 11]%Z -> exists w, refutes k w = true.
 Proof. exact known_classes_refuted. Qed.
-Check finding_classes_refuted : forall k, In k [1; 2; 3; 4; 5; 6; 7; 8; 9; 10; 11; 12]%Z -> exists w, refutes k w = true.
+Check finding_classes_refuted : forall k, In k [2; 3; 4; 5; 6; 7; 8; 9; 10; 11]%Z -> exists w, refutes k w = true.
 Print Assumptions finding_classes_refuted.
+
+(* the witnesses of the repaired findings (F-C18-1, F-C18-7 first half, F-C18-12) are now answered as SQL defines *)
+Theorem former_finding_classes_repaired :
+  meets (fst (fst wit1)) (snd (fst wit1)) (snd wit1) = true /\
+  meets (fst (fst wit7_old)) (snd (fst wit7_old)) (snd wit7_old) = true /\
+  meets (fst (fst wit12)) (snd (fst wit12)) (snd wit12) = true /\
+  impl_stmt (fst (fst wit12)) (snd (fst wit12)) (snd wit12) = MErr.
+Proof. exact former_classes_repaired. Qed.
+Check former_finding_classes_repaired :
+  meets (fst (fst wit1)) (snd (fst wit1)) (snd wit1) = true /\
+  meets (fst (fst wit7_old)) (snd (fst wit7_old)) (snd wit7_old) = true /\
+  meets (fst (fst wit12)) (snd (fst wit12)) (snd wit12) = true /\
+  impl_stmt (fst (fst wit12)) (snd (fst wit12)) (snd wit12) = MErr.
+Print Assumptions former_finding_classes_repaired.
 
 (* the executable form of `agree` *)
 Theorem agreement_check_decides_agreement : forall ws db c, meets ws db c = true <-> agree (impl_stmt ws db c) (qeval db [] (chain_qry c)).
@@ -183,9 +186,6 @@ Print Assumptions anti_join_unsound_with_null.
 Example main_theorem_hypotheses_satisfiable :
   forallb covered [ex_hash; nex_nl; in_hash; in_nl; in_corr; sc_one; from2; set1; set2] = true.
 Proof. exact class0_inhabited. Qed.
-Example dup_free_inhabited : dup_free [[VInt 1]; [VNull]].
-Proof. intro x. cbn [mult]. destruct (srow_eqb x [VInt 1]) eqn:E1; destruct (srow_eqb x [VNull]) eqn:E2; cbn; try auto with arith.
-  apply srow_eqb_eq in E1. apply srow_eqb_eq in E2. congruence. Qed.
 Example eq_def_inhabited : forallb (eq_def (VInt 1)) [VInt 1; VNull; VInt 2] = true.
 Proof. reflexivity. Qed.
 Example all_int_inhabited : all_int [VInt 1; VInt 2].
